@@ -335,7 +335,9 @@ def embed_packet(src, dst, kind, n, rng, ident):
     that starts reassembling in the middle of this packet (fragment 1 taken for a packet start) hands that stream
     to uncompress() - which succeeds - and would write the fabricated frame to its tun device."""
     import zlib
-    F = int(kind.split(":")[1])
+    parts = kind.split(":")
+    F = int(parts[1])
+    kk = int(parts[2]) if len(parts) > 2 else 1       # the fragment boundary that carries the stream
     r = random.Random(ident * 31 + F)
     # two different streams (a repeated one would be found by deflate and the packet no longer stored verbatim)
     embs = [zlib.compress(proto.tun_frame(proto.ipv4_packet(dst, src, FABRICATED_MARK + bytes(r.randrange(1, 255) for _ in range(6)))), 9)
@@ -343,17 +345,17 @@ def embed_packet(src, dst, kind, n, rng, ident):
     emb = embs[0]
     head = 7 + 4 + 20 + 4           # zlib header + stored-block header, tun header, IP header, ident
     body = bytearray(struct.pack(">I", ident))
-    for k in (1,):
+    for k in (kk,):
         want = k * F - head + 4      # offset inside body where the stream must start (body starts at image offset head-4)
         while len(body) < want:
             body.append(r.randrange(1, 255))
         if len(body) == want:
-            body += embs[k - 1]
+            body += embs[0]
     while len(body) < max(n, 2 * F + len(emb) + 40):
         body.append(r.randrange(1, 255))
     frame = proto.tun_frame(proto.ipv4_packet(src, dst, bytes(body)))
     img = zlib.compress(frame, 9)
-    if img[7:7 + len(frame)] != frame or img.find(emb) != F:
+    if img[7:7 + len(frame)] != frame or img.find(emb) != kk * F:
         # not stored verbatim / header sizes differ from the assumption: fall back to a plain packet
         return proto.tun_frame(proto.ipv4_packet(src, dst, struct.pack(">I", ident) + payload_bytes("rand", n, rng)))
     return frame
@@ -386,7 +388,7 @@ class Session:
         if occupy:
             self.w.run_until(t=self.w.now + 5000)
         if prior:
-            self._prior_session(password, domain)
+            self._prior_session(password, domain, prior if isinstance(prior, dict) else {})
         self.clients = []
         self.cfg = dict(qtype=qtype, downenc=downenc, lazy=lazy, maxlen=maxlen, fragsize=fragsize,
                         raw=raw, interval=interval)
@@ -411,7 +413,7 @@ class Session:
             self.w.spawn(name, name, cargs)
             self.clients.append(name)
 
-    def _prior_session(self, password, domain):
+    def _prior_session(self, password, domain, opt):
         """An earlier tenant of slot 0: a peer on a clean path opens a session, logs in, switches to Base128 upstream,
         Base128 downstream, immediate mode and a large fragment size - and is then never heard of again.  65 s later the
         slot is free for the run's own client, which must start from the protocol defaults."""
@@ -434,8 +436,28 @@ class Session:
         ask(proto.q_switch_codec(uid, 7, 9002), 9002)
         ask(proto.q_option(uid, "v", 9003), 9003)
         ask(proto.q_option(uid, "i", 9004), 9004)
-        ask(proto.q_setfrag(uid, 1150, 9005), 9005)
+        frag = opt.get("frag", 1150)
+        ask(proto.q_setfrag(uid, frag, 9005), 9005)
         ask(proto.q_ping(uid, 0, 0, 9006), 9006)
+        if opt.get("halfsent"):
+            # ... and it vanishes in the middle of a downstream packet: the first fragment acknowledged, the second in
+            # flight.  The packet is a crafted one (a zlib stream of a never-offered frame sits exactly at the first
+            # fragment boundary of its stored image), so whoever were sent "the rest" of it would write that frame.
+            lg = ask(proto.q_login(uid, proto.login_hash(password.encode(), seed), 9007), 9007)
+            tip = TUN_NET + ".%d" % (uid + 2)
+            if lg and lg.count(b"-") == 3:
+                tip = lg.split(b"-")[1].decode("latin-1")
+            # (the new tenant's first ping acknowledges "sequence 0, fragment 0", which is what the restarted numbering
+            # says too: the stale packet moves on by one more fragment before its rest is sent - boundary 2)
+            fr = make_packet(self.server_ip, tip, "embed:%d:%d" % (frag, opt.get("boundary", 2)), 4 * frag + 80,
+                             random.Random(77), 4242)
+            w.tun_inject("S", fr)
+            w.run_until(t=w.now + 5000)
+            pl = ask(proto.q_ping(uid, 0, 0, 9008), 9008)
+            h = proto.parse_data_header(pl) if pl else None
+            if h:
+                ask(proto.q_ping(uid, h["dseq"], h["dfrag"], 9009), 9009)
+            self.prior_frame = fr
         w.run_until(t=w.now + 65_000_000)
 
     def handshake_done(self, name):
